@@ -1,7 +1,7 @@
 #!/usr/bin/env python3
 """Regenerate the rounds-2/3 seeded table in DESIGN.md between the SEEDED-TABLE markers."""
 import subprocess, re
-t = subprocess.check_output(['python3', '/verif/tools/seeded_table.py', 'CDEF']).decode()
+t = subprocess.check_output(['python3', '/verif/tools/seeded_table.py', 'CDEFGH']).decode()
 p = '/verif/DESIGN.md'; s = open(p).read()
 s = re.sub(r'<!-- SEEDED-TABLE-BEGIN -->.*?<!-- SEEDED-TABLE-END -->', '<!-- SEEDED-TABLE-BEGIN -->\n' + t + '<!-- SEEDED-TABLE-END -->', s, flags=re.S)
 open(p, 'w').write(s)
